@@ -106,7 +106,7 @@ func buildWorkflow1(ctx context.Context, F []Graph, gi int, pre []int, depth int
 		var from []*compose.FieldMapping // nil: the whole input map
 		switch nd.Kind {
 		case "comp":
-			v, err := addComp(ctx, sink, key, name, nd.Ty)
+			v, err := addComp(ctx, sink, key, name, nd.Ty, nd.Nat)
 			if err != nil {
 				return nil, err
 			}
@@ -253,7 +253,7 @@ func buildChain1(ctx context.Context, F []Graph, gi int, pre []int, depth int, b
 		name := pathName(p)
 		switch nd.Kind {
 		case "comp":
-			v, err := addComp(ctx, sink, key, name, nd.Ty)
+			v, err := addComp(ctx, sink, key, name, nd.Ty, nd.Nat)
 			if err != nil {
 				return nil, err
 			}
